@@ -331,6 +331,9 @@ func (w *World) isLogName(name string) bool {
 	if name == "mapnext" {
 		return true // built-in: iterations of range-over-map loops (key boxed)
 	}
+	if name == "gostart" {
+		return true // built-in: go statements executed by the function under verification (count only)
+	}
 	for _, c := range w.ct.Funcs {
 		if c.Logged == name {
 			return true
@@ -384,6 +387,9 @@ func (w *World) sigOfContract(c *Contract) (*types.Signature, types.Type) {
 }
 
 func (w *World) logElemType(log, comp string) types.Type {
+	if log == "gostart" {
+		return nil
+	}
 	if log == "mapnext" {
 		if comp == "arg0" {
 			return types.NewInterfaceType(nil, nil)
